@@ -43,12 +43,28 @@ fn case_json(spec_ix: usize, input: &[u8]) -> Value {
     json!({"prop": "C17", "check": "probe", "ctx": spec_ix, "input": hex(input)})
 }
 
+/// Two contexts: a fresh one, and one with another address/configuration whose
+/// history already contains traffic and *earlier probes* (a valid header that
+/// announced a long packet, then a rejected one) -- so every case on it is also
+/// "a probe after other probes".  Contexts are rebuilt for every case: nothing
+/// is shared between cases.
 fn specs() -> Vec<CtxSpec> {
-    vec![CtxSpec::fresh(Cfg::simple(0x23)), dirty_spec(0x0F)]
+    vec![
+        CtxSpec::fresh(Cfg::simple(0x23)),
+        CtxSpec {
+            cfg: Cfg { addr: 0x0F, msg_types: vec![0x0F, 0x7E], vendors: vec![(1, 0x0F0F_0F0F, 0x0F0F), (0, 0x0F0F, 0x0F)] },
+            history: vec![
+                Event::Process(set_eid_req(0x10, 0x0F, 0, 0x0F)),
+                Event::GetLength(vec![0x46, 0x0F, 0xF0, 0x21]),
+                Event::GetLength(vec![0x46, 0x0E, 0x11]),
+                Event::GetLength(vec![0x1E, 0x0F, 0x08, 0x21, 0x01, 0x00]),
+            ],
+        },
+    ]
 }
 
 pub fn run(run: &mut Run) {
-    run.rule = "all 2^24 three-byte prefixes x {alone, +9x00, +9xFF, +second header} on two contexts (fresh; configured+history, address 0x0F), 300-byte continuation for byte0=0x46, every string shorter than 3 bytes; non-trivial = byte1==0x0F (the accepting branch)".into();
+    run.rule = "all 2^24 three-byte prefixes x {alone, +9x00, +9xFF, +second header} on two contexts rebuilt for every case (fresh; address 0x0F with a processed Set EID and three earlier probes in its history), 300-byte continuation for byte0=0x46, every string shorter than 3 bytes; non-trivial = byte1==0x0F (the accepting branch)".into();
     run.bound("prefixes", 1u64 << 24);
     run.bound("presentations", 4);
     run.bound("contexts", 2);
@@ -58,9 +74,9 @@ pub fn run(run: &mut Run) {
     let pres: u64 = 4;
     run.sweep_chunked("prefix x presentation x context", (1u64 << 24) * pres, |acc, lo, hi| {
         let owned: Vec<Owned> = specs.iter().map(|s| Owned::new(&s.cfg)).collect();
-        let ctxs: Vec<_> = owned.iter().zip(&specs).map(|(o, s)| build(o, &s.history)).collect();
         let mut buf = Vec::with_capacity(320);
         for i in lo..hi {
+            let ctxs: Vec<_> = owned.iter().zip(&specs).map(|(o, s)| build(o, &s.history)).collect();
             let pfx = (i / pres) as u32;
             let kind = match i % pres {
                 3 => 4,
@@ -91,9 +107,9 @@ pub fn run(run: &mut Run) {
     });
     run.sweep_chunked("byte0=0x46 prefixes x 300-byte continuation", 1 << 16, |acc, lo, hi| {
         let owned: Vec<Owned> = specs.iter().map(|s| Owned::new(&s.cfg)).collect();
-        let ctxs: Vec<_> = owned.iter().zip(&specs).map(|(o, s)| build(o, &s.history)).collect();
         let mut buf = Vec::with_capacity(320);
         for i in lo..hi {
+            let ctxs: Vec<_> = owned.iter().zip(&specs).map(|(o, s)| build(o, &s.history)).collect();
             let p3 = [0x46, (i >> 8) as u8, i as u8];
             continuation(3, &p3, &mut buf);
             acc.evals += 1;
@@ -110,8 +126,8 @@ pub fn run(run: &mut Run) {
     });
     run.sweep_chunked("inputs shorter than three bytes", 1 + 256 + 65536, |acc, lo, hi| {
         let owned: Vec<Owned> = specs.iter().map(|s| Owned::new(&s.cfg)).collect();
-        let ctxs: Vec<_> = owned.iter().zip(&specs).map(|(o, s)| build(o, &s.history)).collect();
         for i in lo..hi {
+            let ctxs: Vec<_> = owned.iter().zip(&specs).map(|(o, s)| build(o, &s.history)).collect();
             let v: Vec<u8> = if i == 0 {
                 vec![]
             } else if i <= 256 {
